@@ -138,6 +138,14 @@ type History struct {
 	Meta  string `json:"meta"` // "mem", "fs"
 	Data  string `json:"data"` // "mem", "mem-noabort", "fs"
 	Steps []Step `json:"steps"`
+	// Faults: one-shot store failures while the history runs (a flush or merge
+	// fails, later ones succeed): whatever produced the files
+	Faults []HistFault `json:"faults,omitempty"`
+}
+
+type HistFault struct {
+	Kind string `json:"kind"` // CreateFile, Write, Close, Update
+	N    int    `json:"n"`    // ordinal among the history's calls of that kind
 }
 
 // StoredRow is the model's record of one ingested row.
@@ -172,7 +180,9 @@ type World struct {
 	// after every Merge of the history (used by C01/C02 classification and by
 	// the C11/C12 oracles).
 	MergeLog []MergeObs
-	cleanup  []func()
+	// FaultsFired counts the planned store failures that actually happened
+	FaultsFired int
+	cleanup     []func()
 }
 
 type MergeObs struct {
@@ -282,7 +292,25 @@ func RunHistory(h History) (*World, error) {
 
 	cfg := h.Cfg
 	cfgIdx := 0
-	eng, err := bs.NewBloomSearchEngine(cfg.Build(), ms, ds)
+	// the stores the history's engines talk to: the raw ones, or (with planned
+	// faults) a tracing wrapper that fails the chosen calls once
+	var eds bs.DataStore = ds
+	var ems bs.MetaStore = ms
+	faulty := len(h.Faults) > 0
+	if faulty {
+		tr := NewTrace(ds, ms)
+		tr.Before = func(ci *CallInfo) error {
+			for _, f := range h.Faults {
+				if f.Kind == ci.Kind && f.N == ci.KindSeq {
+					w.FaultsFired++
+					return fmt.Errorf("%w (history fault %s #%d)", errInjected, f.Kind, f.N)
+				}
+			}
+			return nil
+		}
+		eds, ems = tr, tr
+	}
+	eng, err := bs.NewBloomSearchEngine(cfg.Build(), ems, eds)
 	if err != nil {
 		w.Close()
 		return nil, fmt.Errorf("engine config rejected: %w", err)
@@ -300,7 +328,7 @@ func RunHistory(h History) (*World, error) {
 	settle := func() error {
 		fctx, cancel := context.WithTimeout(ctx, 60*time.Second)
 		defer cancel()
-		if err := eng.Flush(fctx); err != nil {
+		if err := eng.Flush(fctx); err != nil && !faulty {
 			return fmt.Errorf("flush: %w", err)
 		}
 		for _, p := range pend {
@@ -376,7 +404,7 @@ func RunHistory(h History) (*World, error) {
 			cfg = *st.Cfg
 			cfgIdx++
 			w.LastCfg = cfg
-			eng, err = bs.NewBloomSearchEngine(cfg.Build(), ms, ds)
+			eng, err = bs.NewBloomSearchEngine(cfg.Build(), ems, eds)
 			if err != nil {
 				w.Close()
 				return nil, fmt.Errorf("step %d: engine config rejected: %w", si, err)
@@ -393,6 +421,9 @@ func RunHistory(h History) (*World, error) {
 				return nil, fmt.Errorf("step %d: world unreadable before merge: %v", si, err)
 			}
 			stats, err := eng.Merge(ctx)
+			if err != nil && faulty {
+				continue // a merge that failed on an injected fault: all-or-nothing is C13's subject
+			}
 			if err != nil {
 				w.Close()
 				return nil, fmt.Errorf("step %d: merge failed on healthy stores: %v", si, err)
